@@ -35,6 +35,18 @@ type Analysis struct {
 	pureMemo map[*ssa.Function]bool
 	nonNilG  map[*ssa.Global]bool
 	siteSeq  int
+	byFn     map[*ssa.Function]map[string]*AtomInfo
+}
+
+// AtomIn returns the atom as it occurs in fn (operand values of that function), falling back to the
+// first occurrence anywhere.
+func (a *Analysis) AtomIn(fn *ssa.Function, name string) *AtomInfo {
+	if m := a.byFn[fn]; m != nil {
+		if ai := m[name]; ai != nil {
+			return ai
+		}
+	}
+	return a.Atoms[name]
 }
 
 func NewAnalysis(p *Prog) *Analysis {
@@ -56,6 +68,7 @@ type FuncCtx struct {
 	cond   map[*ssa.BasicBlock]*bddNode
 	rpo    []*ssa.BasicBlock
 	loops  map[*ssa.BasicBlock]map[*ssa.BasicBlock]bool // header -> blocks of natural loop
+	cycHit map[ssa.Value]bool
 }
 
 // Ctx returns the top-level context for fn (parameters named by their own roots).
@@ -86,6 +99,15 @@ func (a *Analysis) ctxWith(fn *ssa.Function, env map[ssa.Value]string, prefix st
 func (a *Analysis) atom(name, kind string, fc *FuncCtx, in ssa.Instruction, vals []ssa.Value, args ...string) *bddNode {
 	if _, ok := a.Atoms[name]; !ok {
 		a.Atoms[name] = &AtomInfo{Name: name, Kind: kind, Args: args, Vals: vals, Instr: in, Fn: fc.Fn}
+	}
+	if a.byFn == nil {
+		a.byFn = map[*ssa.Function]map[string]*AtomInfo{}
+	}
+	if a.byFn[fc.Fn] == nil {
+		a.byFn[fc.Fn] = map[string]*AtomInfo{}
+	}
+	if _, ok := a.byFn[fc.Fn][name]; !ok {
+		a.byFn[fc.Fn][name] = &AtomInfo{Name: name, Kind: kind, Args: args, Vals: vals, Instr: in, Fn: fc.Fn}
 	}
 	return a.B.Var(name)
 }
@@ -326,6 +348,10 @@ func (fc *FuncCtx) Formula(v ssa.Value) *bddNode {
 	}
 	B := fc.A.B
 	if fc.busy[v] {
+		if fc.cycHit == nil {
+			fc.cycHit = map[ssa.Value]bool{}
+		}
+		fc.cycHit[v] = true
 		return fc.A.atom("v:"+fc.uniq("cyc", v), "v", fc, nil, []ssa.Value{v})
 	}
 	fc.busy[v] = true
@@ -672,7 +698,11 @@ func (fc *FuncCtx) inlineCtx(sc *ssa.Function, args []ssa.Value, site ssa.Instru
 			env[p] = fc.AP(args[i])
 		}
 	}
-	prefix := fmt.Sprintf("%s%s@%s/", fc.prefix, sc.Name(), site.(ssa.Value).Name())
+	pfx := fc.prefix
+	if pfx == "" {
+		pfx = fc.A.P.FnName(fc.Fn) + "/"
+	}
+	prefix := fmt.Sprintf("%s%s@%s/", pfx, sc.Name(), site.(ssa.Value).Name())
 	return fc.A.ctxWith(sc, env, prefix, fc.depth+1)
 }
 
@@ -784,6 +814,11 @@ func (fc *FuncCtx) flagLoop(phi *ssa.Phi) (*bddNode, bool) {
 			return B.False, true
 		}
 		if ph, ok := v.(*ssa.Phi); ok && body[ph.Block()] && ph.Block() != h && depth < 8 {
+			if _, nested := fc.loops[ph.Block()]; nested {
+				// header phi of a nested loop: its value also depends on the inner iterations; not the
+				// simple flag idiom
+				return nil, false
+			}
 			acc := B.False
 			for i, e := range ph.Edges {
 				p := ph.Block().Preds[i]
@@ -817,6 +852,10 @@ func (fc *FuncCtx) flagLoop(phi *ssa.Phi) (*bddNode, bool) {
 			return nil, false
 		}
 		set = B.Or(set, B.Restrict(f, self, false))
+	}
+	if fc.cycHit[phi] {
+		// the loop body tests the flag itself: not the simple "set once" idiom
+		return nil, false
 	}
 	return B.Or(fc.Formula(init), fc.existsAtom(set, phi)), true
 }
